@@ -25,6 +25,11 @@ structure UgmSt where
   offc : Bool := false          -- an off-contract call happened: accounting clauses are off for the rest of the case
   groupDrop : Bool := false     -- a reload took a limit of a group tracker away while it tracked applications
   hypOk : Bool := true          -- every reload of the case met the hypotheses of limits_follow_config_reload_partial
+  -- a reload of the case met the documented precondition of a known class (KNOWN_FINDINGS.txt): a difference is attributed
+  -- to the class only then, otherwise it is reported under a class of its own
+  f17 : Bool := false           -- a queue lost its wildcard user limit while users are named on it before and after (F17)
+  f18u : Bool := false          -- a user lost the limit of a queue and keeps / gets one in its subtree (F18)
+  f18g : Bool := false          -- the same for a group (group-lost)
 
 def ugList {α} (f : Json → Except String α) (j : Json) : Except String (List α) := do
   let a ← jArr j
@@ -144,7 +149,7 @@ def ugShowLim (l : ORes × Nat) : String := s!"(max={showORes l.1},apps={l.2})"
 def ugLimEq (a b : ORes × Nat) : Bool := oresEq a.1 b.1 && a.2 == b.2
 
 /-- "limits follow the configuration", with the class of the first difference -/
-def ugLimitsClause (m : Mgr) (c : Cfg) : List String :=
+def ugLimitsClause (m : Mgr) (c : Cfg) (f17 f18u f18g : Bool) : List String :=
   let paths := ugDedupP (c.map (·.1) ++ m.userWild.map (·.1) ++ (m.users.map (fun e => e.2.qt.map (·.1))).flatten
                          ++ (m.groups.map (fun e => e.2.qt.map (·.1))).flatten)
   let users := ugDedup (m.users.map (·.1) ++ (c.map (fun q => (q.2.map (·.users)).flatten)).flatten ++ ["some-other-user"])
@@ -157,22 +162,28 @@ def ugLimitsClause (m : Mgr) (c : Cfg) : List String :=
     if ugLimEq want have_ then none else
     let node := (aget m.users u).bind (fun ut => aget ut.qt p)
     let named := ((c.filter (fun q => q.1 == p)).flatMap (·.2)).any (fun l => l.users.contains u)
+    let wildHere := ((c.filter (fun q => q.1 == p)).flatMap (·.2)).any (fun l => l.users.contains "*")
+    -- F18 needs a reload that dropped a limit above a kept one; F17 a reload that dropped a wildcard limit beside named
+    -- users, and the configuration has no wildcard limit on the queue (a tracker that is NOT under a wildcard limit the
+    -- latest configuration does set is another matter: wildcard-not-applied / wildcard-differs)
+    let namedLost := if f18u then "C05.limits.named-lost" else "C05.limits.named-not-in-force"
     let cls :=
       match node with
       | some n =>
         if named then
           -- the named limit is gone (nothing, or the wildcard limit took its place when the tracker was re-created)
-          if n.wild || ugLimEq have_ (none, 0) then "C05.limits.named-lost" else "C05.limits.named-differs"
-        else if n.wild then "C05.limits.stale-wildcard"              -- a wildcard limit of an earlier configuration is kept
+          if n.wild || ugLimEq have_ (none, 0) then namedLost else "C05.limits.named-differs"
+        else if n.wild then                                          -- a wildcard limit of an earlier configuration is kept
+          if f17 && !wildHere then "C05.limits.stale-wildcard" else if wildHere then "C05.limits.wildcard-differs" else "C05.limits.wildcard-kept"
         else if ugLimEq have_ (none, 0) then "C05.limits.wildcard-not-applied"
         else "C05.limits.stale-named"
-      | none => if named then "C05.limits.named-lost" else "C05.limits.wildcard-not-applied"
+      | none => if named then namedLost else "C05.limits.wildcard-not-applied"
     some s!"{cls} user={u} queue={ugShowPath p} configured={ugShowLim want} inForce={ugShowLim have_}"))
   let gb := groups.flatMap (fun g => paths.filterMap (fun p =>
     let want := configuredGroup c g p
     let have_ := inForceGroup m g p
     if ugLimEq want have_ then none else
-    let cls := if ugLimEq have_ (none, 0) then "C05.limits.group-lost" else "C05.limits.group-stale"
+    let cls := if ugLimEq have_ (none, 0) then (if f18g then "C05.limits.group-lost" else "C05.limits.group-not-in-force") else "C05.limits.group-stale"
     some s!"{cls} group={g} queue={ugShowPath p} configured={ugShowLim want} inForce={ugShowLim have_}"))
   -- one representative per class
   (ub ++ gb).foldl (fun acc s => if acc.any (fun t => (t.splitOn " ").head! == (s.splitOn " ").head!) then acc else acc ++ [s]) []
@@ -280,6 +291,9 @@ def ugmStep (st : UgmSt) (j : Json) : Except String (UgmSt × String) := do
   let mut live := st.live
   let mut groupDrop := st.groupDrop
   let mut hypOk := st.hypOk
+  let mut f17 := st.f17
+  let mut f18u := st.f18u
+  let mut f18g := st.f18g
   let mut resultDiff : Option String := none
   let mut admitted := false
   let mut orderDep := false
@@ -293,6 +307,9 @@ def ugmStep (st : UgmSt) (j : Json) : Except String (UgmSt × String) := do
     hypOk := hypOk && properCfgB c && noWildcardDropBesideNamed pre n2 &&
       noDropAboveKept pre.userLimits n2.userLimits && noDropAboveKept pre.groupLimits n2.groupLimits &&
       singleDrop pre.userLimits n2.userLimits && singleDrop pre.groupLimits n2.groupLimits
+    f17 := f17 || !noWildcardDropBesideNamed pre n2
+    f18u := f18u || !noDropAboveKept pre.userLimits n2.userLimits
+    f18g := f18g || !noDropAboveKept pre.groupLimits n2.groupLimits
     model := updateConfig pre c
     -- Go iterates the old limit maps in random order: accept the outcome of any order of the resets
     let s := processConfig pre c
@@ -342,7 +359,7 @@ def ugmStep (st : UgmSt) (j : Json) : Except String (UgmSt × String) := do
       admitted := true
       live := live ++ [{ user := u, app := app, q := q, res := res }]
   | _ => return (st, "bad-op")
-  let st' : UgmSt := { m := impl, cfg := cfg, live := live, offc := offc, groupDrop := groupDrop, hypOk := hypOk }
+  let st' : UgmSt := { m := impl, cfg := cfg, live := live, offc := offc, groupDrop := groupDrop, hypOk := hypOk, f17 := f17, f18u := f18u, f18g := f18g }
   -- model vs implementation
   let diff : Option String := match resultDiff with
     | some d => some s!"diff {d}"
@@ -370,7 +387,7 @@ def ugmStep (st : UgmSt) (j : Json) : Except String (UgmSt × String) := do
   if !offc then bad := bad ++ ugUsageClause impl live groupDrop
   match cfg with
   | some c =>
-    let lb := ugLimitsClause impl c
+    let lb := ugLimitsClause impl c f17 f18u f18g
     bad := bad ++ lb
     -- limits_follow_config_reload_partial: no limit may be off while every reload met its hypotheses
     if hypOk && !lb.isEmpty then
